@@ -259,6 +259,7 @@ class WritableVersion(dns.zone.WritableVersion):
         cursor = self.nodes.cursor()  # pyright: ignore
         cursor.seek(name, False)
         updates = []
+        exposed: dns.name.Name | None = None
         while True:
             elt = cursor.next()
             if elt is None:
@@ -275,9 +276,22 @@ class WritableVersion(dns.zone.WritableVersion):
                 node = new_node
             assert isinstance(node, Node)
             if is_glue:
+                # Anything beneath the new delegation point is occluded, including
+                # names which used to be delegation points themselves.
+                node.flags |= NodeFlags.GLUE
+                node.flags &= ~NodeFlags.DELEGATION
+                self.delegations.discard(ename)
+            elif exposed is not None and ename.is_subdomain(exposed):
+                # Still beneath a delegation point we just re-exposed.
                 node.flags |= NodeFlags.GLUE
             else:
                 node.flags &= ~NodeFlags.GLUE
+                if node.get_rdataset(self.zone.rdclass, dns.rdatatype.NS) is not None:
+                    # This NS owner is no longer occluded, so it is now a
+                    # delegation point itself.
+                    node.flags |= NodeFlags.DELEGATION
+                    self.delegations.add(ename)
+                    exposed = ename
             # We don't update node here as any insertion could disturb the
             # btree and invalidate our cursor.  We could use the cursor in a
             # with block and avoid this, but it would do a lot of parking and
